@@ -211,8 +211,29 @@ def arm_info(spec_key, spec):
 
 # --------------------------------------------------------------------------- executor
 
+class _FmrObserver:
+    """Read-only observer around arm_model.fmr: records what the unconstrained kernel returned *before* Arm.IK
+    wraps it with angleMod (needed to tell apart the known wrap-rounding finding from any other violation)."""
+
+    def __init__(self, real, run):
+        self._real = real
+        self._run = run
+
+    def __getattr__(self, name):
+        return getattr(self._real, name)
+
+    def IKinSpace(self, *a, **k):
+        th, ok = self._real.IKinSpace(*a, **k)
+        try:
+            self._run.raw_free_max = max(self._run.raw_free_max, float(np.max(np.abs(th))))
+        except Exception:
+            pass
+        return th, ok
+
+
 class IKRun:
     sim_seconds = None
+    raw_free_max = 0.0
 
     def __init__(self, trace, keep_log=False):
         self.trace = trace
@@ -257,8 +278,9 @@ class IKRun:
     def coherent(self, tol=1e-7):
         arm = self.arm
         ee = np.array(arm.getEEPos().gTM(), float)
-        T = self.fk(arm._theta)
-        return float(np.max(np.abs(ee - T)))
+        S, M = self.geom()
+        return min(float(np.max(np.abs(ee - self.fk(arm._theta)))),
+                   float(np.max(np.abs(ee - poe(S, M, np.asarray(arm._theta, float).reshape(-1))))))
 
     def goal_tm(self, g):
         tm = _load()["tm"]
@@ -326,6 +348,8 @@ class IKRun:
         self.log.add("step", self.steps_done, op)
         rnd = self.make_random(st)
         m["am"].random = rnd
+        m["am"].fmr = _FmrObserver(m["fmr"], self)
+        self.raw_free_max = 0.0
         exc = None
         ret = None
         info = {}
@@ -370,6 +394,7 @@ class IKRun:
             exc = e
         finally:
             m["am"].random = m["real_random"]
+            m["am"].fmr = m["fmr"]
         draws = list(rnd.consumed)
         self.step_draws.append(draws)
         self.steps_done += 1
@@ -422,10 +447,27 @@ class IKRun:
         check = st.get("check", True) if op != "IKFree" else False
         self.log.add("ik", op, path, success, tuple(float(x) for x in theta), n_draws)
         if success:
-            T = self.fk(theta)
-            ang, lin = pose_errors(T, G)
+            # Two readings of "forward kinematics of the returned vector": the library's FKinSpace (which treats joint
+            # angles below 1e-6 rad as no rotation -- Modern Robotics' NearZero) and an exact product of exponentials.
+            # They differ by up to 1e-6 x lever arm; a solution that wraps 2*pi+3e-7 to 3e-7 is right under the exact
+            # reading and wrong under the library's, a solution with a 1e-8 joint angle the other way round.  Only a
+            # claim that is wrong under BOTH readings is a violation (the discrepancy itself is C05's business).
+            S_, M_ = self.geom()
+            ang, lin = pose_errors(self.fk(theta), G)
+            ang_x, lin_x = pose_errors(poe(S_, M_, theta), G)
+            ok_lib = ang <= rot_tol * (1 + 1e-6) + 1e-12 and min(lin) <= pos_tol * (1 + 1e-6) + 1e-12
+            ok_x = ang_x <= rot_tol * (1 + 1e-6) + 1e-12 and min(lin_x) <= pos_tol * (1 + 1e-6) + 1e-12
+            if ok_x and not ok_lib:
+                ang, lin = ang_x, lin_x
+                P["reached_only_under_exact_fk"] += 1
+            elif ok_lib and not ok_x:
+                P["reached_only_under_library_fk"] += 1
+            elif not ok_lib and not ok_x and (ang_x, min(lin_x)) < (ang, min(lin)):
+                ang, lin = ang_x, lin_x
             detail = dict(sig, rot_tol=rot_tol, pos_tol=pos_tol, ang=ang, lin=min(lin), restarts=restarts,
-                          reachable=info["reachable"])
+                          reachable=info["reachable"], raw_free_max=self.raw_free_max)
+            if self.raw_free_max >= 1e4:
+                P["free_solver_returned_huge_angles"] += 1
             if info["reachable"] is False:
                 P["unreachable_goal_reported_success"] += 1
             if ang > rot_tol * (1 + 1e-6) + 1e-12:
@@ -451,7 +493,9 @@ class IKRun:
                     op, np.round(theta, 6).tolist(), np.round(stored, 6).tolist()), detail)
             ee = np.array(arm.getEEPos().gTM(), float)
             a2, l2 = pose_errors(self.fk(stored), ee)
-            if a2 > rot_tol * (1 + 1e-6) + ANG_BLIND or min(l2) > pos_tol * (1 + 1e-6) + 1e-9:
+            a3, l3 = pose_errors(poe(S_, M_, stored), ee)
+            if ((a2 > rot_tol * (1 + 1e-6) + ANG_BLIND or min(l2) > pos_tol * (1 + 1e-6) + 1e-9) and
+                    (a3 > rot_tol * (1 + 1e-6) + ANG_BLIND or min(l3) > pos_tol * (1 + 1e-6) + 1e-9)):
                 raise Violation("K-state", "%s reported success; the reported tool pose differs from FK(stored joints) by "
                                 "%.3e rad / %.3e" % (op, a2, min(l2)), detail)
             if restarts == 0:
@@ -539,6 +583,7 @@ class IKRun:
         finally:
             sys.stdout = old
             _load()["am"].random = _load()["real_random"]
+            _load()["am"].fmr = _load()["fmr"]
         return self
 
 
@@ -936,6 +981,6 @@ def signature(trace, violation):
     d = violation.detail
     last = trace["steps"][-1] if trace["steps"] else {}
     return {"clause": violation.clause, "op": d.get("op", last.get("op")), "path": d.get("path"), "ang": d.get("ang"),
-            "rot_tol": d.get("rot_tol"),
+            "rot_tol": d.get("rot_tol"), "raw_free_max": d.get("raw_free_max"), "lin": d.get("lin"),
             "arm": d.get("arm"), "exception": d.get("exception"), "check": last.get("check"),
             "n_steps": len(trace["steps"]), "reachable": d.get("reachable")}
